@@ -44,11 +44,16 @@ def operand(kind, k):
         return ("bin", "+", ("fn", "BUTTON", [X.num(k)]), X.num(20 + k))
     if kind == "par":
         return ("par", ("bin", "-", ("var", "C"), X.num(k)))
+    if kind == "neg":
+        # operand that starts with a sign (a different parse-tree class in the tool)
+        return ("un", "-", ("par", ("bin", "-", X.num(k), ("var", "C"))))
+    if kind == "not":
+        return ("un", "NOT", ("par", ("bin", "+", ("var", "A"), X.num(k))))
     raise ValueError(kind)
 
 
 def str_operand(kind, k):
-    if kind in ("lit", "par"):
+    if kind in ("lit", "par", "neg", "not"):
         return ("str", ["U5", "L3", "T2"][k % 3])
     if kind in ("var", "arr"):
         return ("var", "A$" if k % 2 == 0 else "B$")
@@ -57,7 +62,7 @@ def str_operand(kind, k):
     return ("bin", "+", ("fn", "STRING$", [X.num(2), ("var", "B$")]), ("fn", "CHR$", [X.num(65 + k)]))
 
 
-KINDS = ["lit", "var", "arr", "expr", "tmp", "dev", "par"]
+KINDS = ["lit", "var", "arr", "expr", "tmp", "dev", "par", "neg", "not"]
 
 # form name -> (KIND, required operand names, optional patterns (tuples of operand names present), extra literal options)
 def forms():
@@ -280,10 +285,11 @@ def cases(tier, seed):
             for x in range(len(extras)):
                 if tier == "quick":
                     kind_sets = [[KINDS[(n + j) % len(KINDS)] for j in range(7)], ["lit"], [rng.choice(KINDS) for _ in range(7)],
-                                 ["tmp", "var", "dev", "expr", "arr", "par", "lit"], ["var"], ["tmp"], ["dev", "tmp"],
+                                 ["tmp", "var", "dev", "expr", "arr", "par", "lit"], ["var"], ["tmp"], ["dev", "tmp"], ["neg"], ["not"],
+                                 ["var", "neg", "lit", "not"], ["lit", "lit", "lit", "neg", "not", "neg", "not"],
                                  [rng.choice(KINDS) for _ in range(7)]]
                 else:
-                    kind_sets = [[k] for k in KINDS] + [list(t) for t in itertools.islice(itertools.permutations(KINDS, 7), 0, 5040, 420)] + \
+                    kind_sets = [[k] for k in KINDS] + [list(t) for t in itertools.islice(itertools.permutations(KINDS, 7), 0, 181440, 9000)] + \
                                 [[rng.choice(KINDS) for _ in range(7)] for _ in range(6)]
                 for ks in kind_sets:
                     n += 1
